@@ -616,13 +616,16 @@ def mutex(tier):
         out.append(dict(id="mutex-3-%s-%s-%s" % (a.replace(":", ""), b.replace(":", ""), c.replace(":", "")), runner="mutex",
                         init=init, threads=[[a], [b], [c]], bound=1000))
     if tier == "thorough":
-        progs3 = [[a, b, c] for a in ops for b in ops for c in ops if hash_det(a + b + c) % 12 == 0]
+        # the three-operation and three-thread families stay on the first 11 operations (the scan_from / scan_range
+        # variants take the same two scheduling points as scan; they are covered by the 2x2 pairs and the triples above)
+        ops11 = ops[:11]
+        progs3 = [[a, b, c] for a in ops11 for b in ops11 for c in ops11 if hash_det(a + b + c) % 12 == 0]
         for p, q in itertools.combinations(progs3, 2):
             if hash_det("".join(p + q)) % 4:
                 continue
             out.append(dict(id="mutex-3x3-%s-%s" % ("".join(p).replace(":", ""), "".join(q).replace(":", "")), runner="mutex",
                             init=init, threads=[p, q], bound=1000))
-        for p, q in itertools.combinations(progs2[::7], 2):
+        for p, q in itertools.combinations([x for x in progs2 if x[0] in ops11 and x[1] in ops11][::7], 2):
             for c in ("G:1", "c", "s"):
                 out.append(dict(id="mutex-2x2x1-%s-%s-%s" % ("".join(p).replace(":", ""), "".join(q).replace(":", ""), c.replace(":", "")),
                                 runner="mutex", init=init, threads=[p, q, [c]], bound=1000))
